@@ -6,6 +6,7 @@
 //   harness destroy <reps>       destroy an AsyncTask while its task still runs
 //   harness parkburst <T> <N>    T tasking threads, T-1 workers parked, burst of N > pipe size from the caller
 //   harness nested <T> <iters>   scheduled closure schedules a same-type closure and waits inside the tasking system
+//   harness wakeup <T> <ms>      one schedule() at a time, timed to the worker's spin-to-sleep transition; each must run within 2 s
 //   harness onethread            tasking system initialised with 1 thread, one schedule(), no waiting
 #include <algorithm>
 #include <atomic>
@@ -519,12 +520,55 @@ static int mode_nested(int T, int iters)
   _exit(0);   // verdict printed; no scheduler shutdown (see parkburst)
 }
 
+// ---------------------------------------------- wake-up of a worker that is just going to sleep
+// initTaskingSystem(T); one schedule() at a time, issued a swept delay (0..100 us) after the previous closure was seen
+// to finish, i.e. around the moment the idle worker leaves its spin loop and blocks on the scheduler's semaphore.
+// The caller only spins on the closure's flag (no tasking call): every closure must run within 2 s.
+static void spin_for_us(double us)
+{
+  auto t0 = clk::now();
+  while (std::chrono::duration<double, std::micro>(clk::now() - t0).count() < us) {}
+}
+static int mode_wakeup(int T, int budget_ms)
+{
+  initTaskingSystem(T);
+  std::atomic<long> *ran = new std::atomic<long>(0);
+  long calls = 0, lost = 0;
+  int lost_delay = -1;
+  double worst_ms = 0;
+  auto tstart = clk::now();
+  // warm up: let the workers start and fall asleep once
+  sleep_ms(20);
+  while (ms_since(tstart) < budget_ms && !lost) {
+    for (int d = 0; d <= 100 && !lost; ++d) {
+      long before = ran->load();
+      schedule([ran]() { (*ran)++; });
+      calls++;
+      auto t0 = clk::now();
+      while (ran->load() == before) {
+        double w = ms_since(t0);
+        if (w > 2000) { lost++; lost_delay = d; break; }
+        if (w > 1) std::this_thread::yield();
+      }
+      double w = ms_since(t0);
+      if (w > worst_ms) worst_ms = w;
+      if (!lost) spin_for_us(d);
+    }
+  }
+  long ran_after = ran->load();
+  printf("WAKEUP T=%d threads=%d calls=%ld lost=%ld delay_us_of_lost_call=%d worst_latency_ms=%.2f ran=%ld elapsed_ms=%d\n", T, numTaskingThreads(),
+      calls, lost, lost_delay, worst_ms, ran_after, (int)ms_since(tstart));
+  fflush(stdout);
+  _exit(0);
+}
+
 int main(int argc, char **argv)
 {
   if (argc < 2) return 2;
   std::string m = argv[1];
   int n = argc > 2 ? atoi(argv[2]) : 1;
   if (m == "onethread") return mode_onethread();
+  if (m == "wakeup") return mode_wakeup(n, argc > 3 ? atoi(argv[3]) : 3000);
   if (m == "nested") return mode_nested(n, argc > 3 ? atoi(argv[3]) : 8);
   if (m == "parkburst") return mode_parkburst(n, argc > 3 ? atoi(argv[3]) : 300);
   int nt = 4;
